@@ -1,10 +1,13 @@
-(* C10 - ownership ledger of a function body over its sc_array_t variables (executable definitions only).
+(* C10 - ownership ledger of a function body over its sc_array_t variables and the heap objects it creates
+   (executable definitions only).
 
-   The translator (tools/c2g/ledgerlib.py, group LedgerC10) abstracts a function body to a list of events on named array
-   variables, as a function of its branch conditions.  This file gives the events their meaning on an abstract state:
-   which variable holds which block, which blocks and heap structs are live.  [l_run] fails (None) on a use of an
-   uninitialised / destroyed array, a use after free and a double free; a block that nobody frees stays in [l_live] and is
-   seen by [balancedb] at the end.
+   The translator (tools/c2g/ledgerlib.py, group LedgerC10) abstracts a function body to a list of events on named
+   variables (locals, parameters, fields such as "hash->slots"), as a function of its branch conditions.  This file gives
+   the events their meaning on an abstract state: which variable refers to which OBJECT (an sc_array_t structure, or an
+   opaque heap object: a block from SC_ALLOC, a memory pool, a hash table), which data block an array structure holds,
+   which heap objects and data blocks are live.  [l_run] fails (None) on a use of an uninitialised / freed object, a use
+   after free and a double free; an object or block that nobody frees stays in [l_heap] / [l_live] and is seen by the
+   balance predicates at the end.
 
    Abstraction of sc_array_t (src/sc_containers.c): a valid owner array holds at most one block (array->array is NULL after
    sc_array_reset / sc_array_resize (0), one block otherwise; sc_array_init allocates a block even for zero elements;
@@ -14,30 +17,37 @@ From Coq Require Import ZArith List String Bool Arith.
 Import ListNotations.
 
 Inductive lev :=
-| LNew (x : string)             (* x = sc_array_new[_count] (..): heap struct and data block *)
+| LNew (x : string)             (* x = sc_array_new[_count] (..): heap structure and data block *)
 | LInit (x : string)            (* sc_array_init[_count] (x): the data pointer is OVERWRITTEN by a fresh block *)
 | LReset (x : string)           (* sc_array_reset (x) *)
-| LDestroy (x : string)         (* sc_array_destroy (x) *)
-| LUse (x : string)             (* x is read (elements, count, merge input, MPI buffer) *)
+| LDestroy (x : string)         (* sc_array_destroy (x): data block and heap structure *)
+| LUse (x : string)             (* x is read (elements, count, merge input, MPI buffer, argument of another function) *)
 | LGrow (x : string)            (* sc_array_resize / push / merge output *)
-| LCopy (dst src : string).     (* *dst = src: the struct, i.e. the data pointer, is OVERWRITTEN *)
+| LCopy (dst src : string)      (* *dst = *src (or memcpy of the structure): the data pointer of dst is OVERWRITTEN *)
+| LAlias (x y : string)         (* x = y between pointers (or x = &y): x refers to the object y refers to *)
+| LAlloc (x : string)           (* x = SC_ALLOC / sc_malloc / sc_mempool_new / sc_hash_new (..): an opaque heap object *)
+| LFree (x : string).           (* SC_FREE / sc_free / sc_mempool_destroy / sc_hash_destroy (x): the object itself is freed *)
 
-Inductive l_slot := Dead | Empty | Own (b : nat).
+Inductive l_data := Dead | Empty | Own (b : nat).
 
 Record lstate := mkL {
-  l_vars : list (string * l_slot);   (* association list, first match counts *)
-  l_heap : list string;            (* variables whose struct is a live heap block (one entry per sc_array_new) *)
+  l_vars : list (string * nat);    (* variable -> object id; first match counts *)
+  l_objs : list (nat * l_data);    (* structures that exist (not freed) -> what their data pointer holds; first match counts *)
+  l_heap : list nat;               (* objects that are live heap allocations (sc_array_new, SC_ALLOC, ..) *)
   l_live : list nat;               (* live data blocks *)
-  l_next : nat }.                  (* next fresh block id *)
+  l_next : nat }.                  (* next fresh id (objects and blocks) *)
 
-Fixpoint l_lookup (x : string) (v : list (string * l_slot)) : l_slot :=
+Fixpoint l_var (x : string) (v : list (string * nat)) : option nat :=
   match v with
-  | [] => Dead
-  | (y, s) :: r => if String.eqb x y then s else l_lookup x r
+  | [] => None
+  | (y, o) :: r => if String.eqb x y then Some o else l_var x r
   end.
 
-Definition l_setv (x : string) (s : l_slot) (st : lstate) : lstate :=
-  mkL ((x, s) :: l_vars st) (l_heap st) (l_live st) (l_next st).
+Fixpoint l_obj (o : nat) (l : list (nat * l_data)) : option l_data :=
+  match l with
+  | [] => None
+  | (p, d) :: r => if Nat.eqb o p then Some d else l_obj o r
+  end.
 
 Fixpoint l_remove1 (b : nat) (l : list nat) : list nat :=
   match l with
@@ -45,56 +55,130 @@ Fixpoint l_remove1 (b : nat) (l : list nat) : list nat :=
   | c :: r => if Nat.eqb b c then r else c :: l_remove1 b r
   end.
 
-Fixpoint l_remove1s (x : string) (l : list string) : list string :=
+Fixpoint l_dropobj (o : nat) (l : list (nat * l_data)) : list (nat * l_data) :=
   match l with
   | [] => []
-  | c :: r => if String.eqb x c then r else c :: l_remove1s x r
+  | (p, d) :: r => if Nat.eqb o p then l_dropobj o r else (p, d) :: l_dropobj o r
   end.
 
 Definition l_memb (b : nat) (l : list nat) : bool := existsb (Nat.eqb b) l.
-Definition l_mems (x : string) (l : list string) : bool := existsb (String.eqb x) l.
 
-Definition l_fresh (x : string) (st : lstate) : lstate :=
-  mkL ((x, Own (l_next st)) :: l_vars st) (l_heap st) (l_next st :: l_live st) (S (l_next st)).
-
-(* free the block x holds; x is an empty valid array afterwards *)
-Definition l_release (x : string) (st : lstate) : option lstate :=
-  match l_lookup x (l_vars st) with
-  | Dead => None                                           (* reset of garbage *)
-  | Empty => Some st
-  | Own b => if l_memb b (l_live st)
-             then Some (mkL ((x, Empty) :: l_vars st) (l_heap st) (l_remove1 b (l_live st)) (l_next st))
-             else None                                     (* double free *)
+(* the structure x refers to, if it still exists, with its data *)
+Definition l_deref (x : string) (st : lstate) : option (nat * l_data) :=
+  match l_var x (l_vars st) with
+  | Some o => match l_obj o (l_objs st) with
+              | Some d => Some (o, d)
+              | None => None             (* dangling: the structure was freed *)
+              end
+  | None => None
   end.
 
-Definition l_valid (x : string) (st : lstate) : bool :=
-  match l_lookup x (l_vars st) with
+Definition l_setdata (o : nat) (d : l_data) (st : lstate) : lstate :=
+  mkL (l_vars st) ((o, d) :: l_objs st) (l_heap st) (l_live st) (l_next st).
+
+(* data is usable: an empty array, or a block that is still live *)
+Definition l_dataok (d : l_data) (st : lstate) : bool :=
+  match d with
   | Dead => false
   | Empty => true
   | Own b => l_memb b (l_live st)
   end.
 
+(* a structure of automatic / embedded storage named for the first time: it exists, uninitialised *)
+Definition l_bind_auto (x : string) (st : lstate) : lstate * nat :=
+  (mkL ((x, l_next st) :: l_vars st) ((l_next st, Dead) :: l_objs st) (l_heap st) (l_live st) (S (l_next st)), l_next st).
+
+(* the structure x names: the one it refers to, or a new automatic one if the name is new; None if x dangles *)
+Definition l_struct (x : string) (st : lstate) : option (lstate * nat) :=
+  match l_var x (l_vars st) with
+  | Some o => match l_obj o (l_objs st) with
+              | Some _ => Some (st, o)
+              | None => None
+              end
+  | None => Some (l_bind_auto x st)
+  end.
+
+(* free the block the structure o holds; o is an empty valid array afterwards *)
+Definition l_release (o : nat) (d : l_data) (st : lstate) : option lstate :=
+  match d with
+  | Dead => None                                            (* reset of garbage *)
+  | Empty => Some st
+  | Own b => if l_memb b (l_live st)
+             then Some (mkL (l_vars st) ((o, Empty) :: l_objs st) (l_heap st) (l_remove1 b (l_live st)) (l_next st))
+             else None                                      (* double free *)
+  end.
+
+Definition l_freeobj (o : nat) (st : lstate) : option lstate :=
+  if l_memb o (l_heap st)
+  then Some (mkL (l_vars st) (l_dropobj o (l_objs st)) (l_remove1 o (l_heap st)) (l_live st) (l_next st))
+  else None.                                                (* free of something that is not a live heap object *)
+
 Definition l_run_ev (e : lev) (st : lstate) : option lstate :=
   match e with
-  | LNew x => Some (let st' := l_fresh x st in mkL (l_vars st') (x :: l_heap st') (l_live st') (l_next st'))
-  | LInit x => Some (l_fresh x st)
-  | LReset x => l_release x st
+  | LNew x =>
+      let o := l_next st in let b := S o in
+      Some (mkL ((x, o) :: l_vars st) ((o, Own b) :: l_objs st) (o :: l_heap st) (b :: l_live st) (S b))
+  | LAlloc x =>
+      let o := l_next st in
+      Some (mkL ((x, o) :: l_vars st) ((o, Empty) :: l_objs st) (o :: l_heap st) (l_live st) (S o))
+  | LInit x =>
+      match l_struct x st with
+      | Some (st1, o) =>
+          let b := l_next st1 in
+          Some (mkL (l_vars st1) ((o, Own b) :: l_objs st1) (l_heap st1) (b :: l_live st1) (S b))
+      | None => None
+      end
+  | LReset x =>
+      match l_deref x st with
+      | Some (o, d) => l_release o d st
+      | None => None
+      end
   | LDestroy x =>
-      if l_mems x (l_heap st)
-      then match l_release x st with
-           | Some st' => Some (mkL ((x, Dead) :: l_vars st') (l_remove1s x (l_heap st')) (l_live st') (l_next st'))
-           | None => None
-           end
-      else None
-  | LUse x => if l_valid x st then Some st else None
+      match l_deref x st with
+      | Some (o, d) => match l_release o d st with
+                       | Some st1 => l_freeobj o st1
+                       | None => None
+                       end
+      | None => None
+      end
+  | LFree x =>
+      match l_deref x st with
+      | Some (o, _) => l_freeobj o st             (* a block the structure still holds stays live: a leak *)
+      | None => None
+      end
+  | LUse x =>
+      match l_deref x st with
+      | Some (_, d) => if l_dataok d st then Some st else None
+      | None => None
+      end
   | LGrow x =>
-      if l_valid x st
-      then match l_lookup x (l_vars st) with
-           | Empty => Some (l_fresh x st)
-           | _ => Some st
-           end
-      else None
-  | LCopy d s => if l_valid s st then Some (l_setv d (l_lookup s (l_vars st)) st) else None
+      match l_deref x st with
+      | Some (o, d) =>
+          if l_dataok d st
+          then match d with
+               | Empty => let b := l_next st in
+                          Some (mkL (l_vars st) ((o, Own b) :: l_objs st) (l_heap st) (b :: l_live st) (S b))
+               | _ => Some st
+               end
+          else None
+      | None => None
+      end
+  | LCopy dst src =>
+      match l_deref src st with
+      | Some (_, d) =>
+          if l_dataok d st
+          then match l_struct dst st with
+               | Some (st1, o) => Some (l_setdata o d st1)
+               | None => None
+               end
+          else None
+      | None => None
+      end
+  | LAlias x y =>
+      match l_var y (l_vars st) with
+      | Some o => Some (mkL ((x, o) :: l_vars st) (l_objs st) (l_heap st) (l_live st) (l_next st))
+      | None => None
+      end
   end.
 
 Fixpoint l_run (l : list lev) (st : lstate) : option lstate :=
@@ -106,22 +190,59 @@ Fixpoint l_run (l : list lev) (st : lstate) : option lstate :=
               end
   end.
 
-(* the function was entered with the array [a] valid and nothing else live: it must leave the same way *)
-Definition entry_own (a : string) : lstate := mkL [(a, Own 0)] [] [0] 1.
-Definition entry_empty (a : string) : lstate := mkL [(a, Empty)] [] [] 0.
+Fixpoint l_eqlist (a b : list nat) : bool :=
+  match a, b with
+  | [], [] => true
+  | x :: r, y :: s => Nat.eqb x y && l_eqlist r s
+  | _, _ => false
+  end.
 
-Definition balancedb (a : string) (st : lstate) : bool :=
-  match l_heap st with
-  | [] => match l_lookup a (l_vars st) with
-          | Dead => false
-          | Empty => match l_live st with [] => true | _ => false end
-          | Own b => match l_live st with [c] => Nat.eqb b c | _ => false end
-          end
-  | _ => false
+(* ---- entry states *)
+(* the caller's array structure [a] (not a heap object of this function) holding a block / empty, nothing else *)
+Definition entry_own (a : string) : lstate := mkL [(a, 0)] [(0, Own 1)] [] [1] 2.
+Definition entry_empty (a : string) : lstate := mkL [(a, 0)] [(0, Empty)] [] [] 1.
+(* the caller's variable [a] points to a heap array (sc_array_new) holding a block, nothing else *)
+Definition entry_heap (a : string) : lstate := mkL [(a, 0)] [(0, Own 1)] [0] [1] 2.
+(* nothing exists / only an external heap object [p] of the caller (a memory pool handed in) *)
+Definition entry_none : lstate := mkL [] [] [] [] 0.
+Definition entry_ext (p : string) : lstate := mkL [(p, 0)] [(0, Empty)] [0] [] 1.
+
+(* ---- balance at the end *)
+(* [a] still names an existing structure; the live heap objects are exactly [hs]; the live blocks are exactly what
+   [a] holds *)
+Definition l_holds (a : string) (hs : list nat) (st : lstate) : bool :=
+  match l_deref a st with
+  | Some (_, Dead) => false
+  | Some (_, Empty) => l_eqlist (l_heap st) hs && l_eqlist (l_live st) []
+  | Some (_, Own b) => l_eqlist (l_heap st) hs && l_eqlist (l_live st) [b]
+  | None => false
+  end.
+
+(* the caller's array structure: no heap object of the function is left *)
+Definition balancedb (a : string) (st : lstate) : bool := l_holds a [] st.
+
+(* the caller's pointer [a] to a heap array: that array is the only heap object left *)
+Definition balanced_heapb (a : string) (st : lstate) : bool :=
+  match l_var a (l_vars st) with
+  | Some o => l_holds a [o] st
+  | None => false
   end.
 
 Definition balanced_run (a : string) (l : list lev) (st : lstate) : bool :=
   match l_run l st with
   | Some st' => balancedb a st'
+  | None => false
+  end.
+
+Definition balanced_heap_run (a : string) (l : list lev) (st : lstate) : bool :=
+  match l_run l st with
+  | Some st' => balanced_heapb a st'
+  | None => false
+  end.
+
+(* create ... destroy: live heap objects and blocks are what they were before *)
+Definition restored_run (l : list lev) (st : lstate) : bool :=
+  match l_run l st with
+  | Some st' => l_eqlist (l_heap st') (l_heap st) && l_eqlist (l_live st') (l_live st)
   | None => false
   end.
